@@ -903,6 +903,8 @@ class TextXMetaMetaModel:
             self._metamodel = metamodel_from_file(
                 join(abspath(dirname(__file__)), "textx.tx")
             )
+            # Regex match literal without the enclosing slashes.
+            self._metamodel.register_obj_processors({"ReText": lambda text: text[1:-1]})
         return self._metamodel
 
     def model_from_str(self, model_str, debug=None, **kwargs):
